@@ -421,7 +421,8 @@ Definition wf_typed (m : mnem) (vs : list fval) : Prop :=
   wf_vals (layout_for m vs) vs /\
   match m with
   | M_IPSECKEY => exists pr gw al rest, vs = V_int pr :: V_int gw :: V_int al :: rest /\ gw <= 3
-  | M_OPT => False          (* OPT is carried by the packet header (Packet.popt), see PacketProofs *)
+  | M_OPT => False          (* OPT is carried by the packet header (Packet.popt), see RoundTrip *)
+  | M_NULL => False         (* RData::NULL(code, data) is RD_null, not a typed variant *)
   | _ => True
   end.
 
